@@ -11,3 +11,5 @@ import BnpVerif.Props.C01
 #print axioms C01.fasta_laws
 #print axioms C01.readAll_bytes_fasta
 #print axioms C01.entries_chunks_kLine
+#print axioms C01.whole_read
+#print axioms C01.chunked_eq_whole
